@@ -712,6 +712,8 @@ void File::uncompressedFile2ReadWriteQueue() {
     ObjectHeaderBase * obj = createObject(ohb.objectType);
     if (obj == nullptr) {
         /* in case of unknown objectType */
+        if (ohb.objectSize < ohb.calculateHeaderSize())
+            throw Exception("File::uncompressedFile2ReadWriteQueue(): Object size smaller than object header.");
         m_uncompressedFile.seekg(ohb.objectSize, std::ios_base::cur);
         return;
     }
